@@ -642,9 +642,57 @@ func (c *Ctx) concatNonceSPIShape(fn *ssa.Function) (bool, string) {
 	}
 	var list []string
 	bufContent := map[ssa.Value]string{}
+	// octet stores that spell a big-endian 64-bit integer: buf[k] = byte(param >> (56 - 8k)), k = 0..7
+	partial := map[ssa.Value]*[8]int{}
 	var acc ssa.Value
 	for _, ins := range fn.Blocks[0].Instrs {
 		switch x := ins.(type) {
+		case *ssa.Store:
+			ia, ok := x.Addr.(*ssa.IndexAddr)
+			if !ok {
+				continue
+			}
+			delete(bufContent, ia.X)
+			k, isK := ia.Index.(*ssa.Const)
+			if !isK {
+				delete(partial, ia.X)
+				continue
+			}
+			kv, _ := constInt64(k.Value)
+			v := x.Val
+			for {
+				if cv, ok := v.(*ssa.Convert); ok {
+					v = cv.X
+					continue
+				}
+				break
+			}
+			shift, pi := int64(0), paramIndex(fn, v)
+			if bo, ok := v.(*ssa.BinOp); ok && bo.Op == token.SHR {
+				if sk, ok := bo.Y.(*ssa.Const); ok {
+					shift, _ = constInt64(sk.Value)
+					pi = paramIndex(fn, bo.X)
+				}
+			}
+			if kv < 0 || kv > 7 || pi < 0 || shift != 56-8*kv {
+				delete(partial, ia.X)
+				continue
+			}
+			pa := partial[ia.X]
+			if pa == nil {
+				pa = &[8]int{-1, -1, -1, -1, -1, -1, -1, -1}
+				partial[ia.X] = pa
+			}
+			pa[kv] = pi
+			all := true
+			for _, q := range pa {
+				if q != pi {
+					all = false
+				}
+			}
+			if all {
+				bufContent[ia.X] = fmt.Sprintf("BE64(param %d)", pi)
+			}
 		case *ssa.Call:
 			if cal := x.Call.StaticCallee(); cal != nil && cal.String() == "(encoding/binary.bigEndian).PutUint64" {
 				pi := paramIndex(fn, x.Call.Args[2])
